@@ -50,6 +50,10 @@ CLAIMED = {
    text="Twin execution full vs masked with generated wrapper types (one Go type per exposed method set, 88 FS types and 32 file types from tools/gen_capfs.py): for every helper, every subset of the interfaces its dispatch can consult (transitively), three bases (os.FS which natively implements everything, mem.FS, mount.FS over mem) and nine targets, the masked run must reproduce the full run's result class, data and final tree or fail with ErrNotImplemented leaving the tree unchanged; handles expose subsets of the file interfaces for the *File helpers and the fallbacks that rely on them. Fault enumeration: for every masked run the primitives it called are counted and the helper is re-run once per primitive index with that primitive failing; reported success is accepted only with the fault-free data and state.",
    note="Only interfaces a base implements natively can be exposed or hidden. Symlink runs on os.FS only. Known: WriteFullFile's fallback truncates before discovering that handles cannot Write (F56).",
    technique="twin execution over generated capability-masking wrappers plus single-fault injection at every primitive call index"),
+ "C09": dict(level="exploration", design="4/C09",
+   text="An independent lexical model (split/resolve/compare by elements) is compared with os.FS's name<->OS-path mapping over a completely enumerated finite space: 5 conventions (linux; windows with volumes '', C:, D:, a UNC share, driven on Linux through the verif shims) x 9 Sub-root chains (look-alike prefixes, a space, multi-element Sub) x every string of up to 3 elements over {a, root, rootx, tmp, ., .., '', a\\b, ..\\x, C:} with leading/trailing separator variants (about 3 million evaluations): exact root-joined-name result, lexical containment, refusal of invalid names, round trip, and for FromOSPath 'fails, or returns a valid FS path for the same location; must fail for relative paths, other volumes and paths outside the root'. A helper process per chain runs real calls under strace: every path that reaches the kernel lies inside the root and OS errors name the caller's relative path.",
+   note="Windows conventions are exercised lexically only (no Windows kernel; errors_windows.go never runs). Non-absolute Windows inputs are not given to the shim because the public function filters them with the host's IsAbs. Known: names containing a backslash under the Windows convention (F32).",
+   technique="exhaustive enumeration of a finite string space against an independent lexical model; strace as kernel-boundary monitor"),
 }
 NOT_YET = "monitor not built yet in this session (see DESIGN.md section 4 for the planned runtime monitor)"
 props = [json.loads(l)["id"] for l in open("/verif/properties.jsonl")]
